@@ -34,6 +34,7 @@ DEFAULT = dict(
     sl_dist=(3, 7), tp_dist=(2, 6), max_exit_rows=2, exits_in='go',          # 'go' | 'on_open' | 'mixed' | 'none'
     p_cancel=0.4, p_edit=0.15, p_liq=0.03, p_edit_reduced=0.4, p_edit_increased=0.3, p_edit_entry=0.0,
     p_wrong_side=0.0, p_oversize=0.0, oversize_sl=False, edit_offsets=None,
+    p_flip=0.0,               # NOT declarative: a non-reduce-only opposite market order larger than the position (broker.*_at_market)
     p_signed=0.5,             # on a short: exit rows declared with the signed quantity (self.position.qty < 0), as liquidate() does
     p_withdraw=0.05,          # withdraw one side of the exits by declaring []
     p_move_entry=0.0,         # re-declare the entry rows of an OPEN position with one price moved by 1-2 ticks (scale-in rows)
@@ -246,6 +247,12 @@ def make_strategy(policy, log):
             x = r.random()
             if x < P['p_liq']:
                 self.liquidate()
+            elif P['p_flip'] and r.random() < P['p_flip'] and self.position.qty != 0:
+                n = abs(self.position.qty) + r.choice([1, 2])          # strictly larger than the position: a true flip
+                if self.position.qty > 0:
+                    self.broker.sell_at_market(n)
+                else:
+                    self.broker.buy_at_market(n)
             elif x > 1 - P['p_inplace']:
                 self._inplace(r)
             elif x > 1 - P['p_inplace'] - P['p_withdraw']:
@@ -364,7 +371,8 @@ class StratRec:
             pos = store.positions.storage['%s-%s' % (self_.exchange, self_.symbol)]
             me.emit('submit', s=me.sym_idx[self_.symbol], o=i, side=self_.side, type=self_.type, q=me.Q(abs(self_.qty)),
                     p=me.P(self_.price), ro=bool(self_.reduce_only), cur=me.P(st.price), pq=me.Q(pos.qty), _ord=i,
-                    liq=me.in_liq > 0)
+                    liq=me.in_liq > 0,
+                    pe=(_round_or_nan(pos.entry_price, me.punit / 1000) if pos.entry_price is not None and pos.qty != 0 else -1))
 
         def execute(self_, *a, **k):
             if not self_.is_active:
@@ -623,6 +631,14 @@ def gen_items(seed, count, kinds, n_minutes=240):
             pol.update(base=100, tick=1.0, qtys=(1, 2), max_entry_rows=2, max_exit_rows=2, exits_in='on_open', allow_short=False,
                        p_edit=0.25, resize_always=True, p_edit_entry=0.0, p_liq=0.0, p_inplace=0.0, p_withdraw=0.0)
             it.update(spot=True, fee=[0, 1])
+        elif kind == 'pyramid':    # scale-in entries (market row + stop rows further out) with the exits declared in go_long/go_short
+            # BETWEEN the first fill and the declared average entry: they are on the right side of the position's entry price
+            pol.update(base=100, tick=1.0, qtys=(1, 2), max_entry_rows=rng.choice([2, 3]), entry_offsets=(0, 0, -6, -8, -10), max_exit_rows=2,
+                       exits_in='go', sl_dist=(2, 4), tp_dist=(1, 4), p_edit=0.1, p_liq=0.02, p_cancel=0.3, entry_every=rng.choice([7, 9]))
+        elif kind == 'flipper':    # C06 quantifies over position flips: the strategy itself sends an opposite, larger, non-reduce-only order
+            pol.update(base=100, tick=1.0, qtys=(1, 2), max_entry_rows=1, max_exit_rows=1, exits_in=rng.choice(['go', 'none']),
+                       sl_dist=(10, 14), tp_dist=(10, 14), p_edit=0.0, p_liq=0.0, p_inplace=0.0, p_withdraw=0.0, p_edit_reduced=0.0,
+                       p_edit_increased=0.0, p_flip=0.2, entry_every=rng.choice([7, 9]))
         elif kind == 'allin':      # cross margin x10, the whole leveraged wallet in one position, wide stop: one loss exceeds the wallet
             pol.update(base=100, tick=1.0, qtys=(80, 90), max_entry_rows=1, entry_offsets=(0,), max_exit_rows=1, exits_in='go',
                        sl_dist=(18, 24), tp_dist=(50, 60), p_edit=0.0, p_liq=0.0, p_inplace=0.0, p_withdraw=0.0, p_edit_reduced=0.0,
